@@ -22,6 +22,7 @@ type PackagesFacade struct {
 
 	fileSet       *token.FileSet
 	files         map[string]*ast.File         // filename → *ast.File
+	globbedFiles  map[string]struct{}          // filenames matched by the configured globs
 	fileToPackage map[string]*packages.Package // filename → owning *packages.Package
 
 	packagesCache  map[string]*packages.Package // pkgPath → *packages.Package
@@ -35,6 +36,7 @@ func NewPackagesFacade(config PackageFacadeConfig) (PackagesFacade, error) {
 		fileSet: token.NewFileSet(),
 
 		files:         make(map[string]*ast.File),
+		globbedFiles:  make(map[string]struct{}),
 		fileToPackage: make(map[string]*packages.Package),
 
 		packagesCache:  make(map[string]*packages.Package),
@@ -50,8 +52,12 @@ func (facade *PackagesFacade) FSet() *token.FileSet {
 }
 
 func (facade *PackagesFacade) GetAllSourceFiles() []*ast.File {
-	result := make([]*ast.File, 0, len(facade.files))
-	for _, file := range facade.files {
+	// Only files matched by the globs are sources; files of packages loaded later on (e.g. for model types) are not
+	result := make([]*ast.File, 0, len(facade.globbedFiles))
+	for name, file := range facade.files {
+		if _, isGlobbed := facade.globbedFiles[name]; !isGlobbed {
+			continue
+		}
 		result = append(result, file)
 	}
 	result = verifhook.Permute("GetAllSourceFiles", result, func(f *ast.File) string { return facade.fileSet.Position(f.Pos()).Filename })
@@ -108,6 +114,7 @@ func (facade *PackagesFacade) initWithGlobs() error {
 		}
 	}
 
+	facade.globbedFiles = matchedAbsPaths
 	err := facade.loadPackagesFiltered(pkgPathsToLoad.ToSlice(), matchedAbsPaths)
 	if err != nil {
 		logger.Error("Could not load one or more packages (%v) - %v", pkgPathsToLoad.ToSlice(), err)
